@@ -350,7 +350,7 @@ def w_F32(ctx):
     eq[4] = eq[8] = 1
     d1 = _within(2, [0, 1], [2, 2], [eq, [1 - x for x in eq]], ["eq", "ne"])
     d2 = _within(3, [0], [2], [[0, 1, 0], [1, 0, 1]], ["one", "two"])
-    return _design(ctx, _leaf([a, b, d1, d2], [2, 3], []), ["exception"], strat="RandomGen")
+    return _design(ctx, _leaf([a, b, d1, d2], [2, 3], []), ["exception", "sound", "exhaust"], strat="RandomGen")
 
 
 def w_F33(ctx):
